@@ -954,11 +954,17 @@ func rogueSuite(seed uint64, tier, outDir string) (*core.Result, error) {
 	if err := rogueOverlap(res); err != nil {
 		return nil, err
 	}
+	if err := rogueStaleCandidates(res); err != nil {
+		return nil, err
+	}
+	if err := roguePersistOrder(res); err != nil {
+		return nil, err
+	}
 
 	res.Required = append(res.Required, "sweep.edge", "sweep.short-read", "sweep.stale", "rogue.edge-random", "rogue.edge-zero", "rogue.random-length",
 		"round.single-down", "round.all-banned", "round.all-failed", "round.six-servers", "round.six-late-failures", "attempt.refuse", "attempt.reset", "attempt.short",
 		"attempt.badsig", "attempt.stale", "attempt.future", "attempt.wrongdev", "attempt.badsrvsig", "attempt.badlen", "attempt.rogue-short",
-		"attempt.garbage", "attempt.tiny", "attempt.badmig", "attempt.refusal-byte", "attempt.success", "attempt.delayed", "attempt.early", "hist.load", "liveness.report-after-failed-sync", "liveness.sync-retried")
+		"attempt.garbage", "attempt.tiny", "attempt.badmig", "attempt.refusal-byte", "attempt.success", "attempt.delayed", "attempt.early", "hist.load", "liveness.report-after-failed-sync", "liveness.sync-retried", "persist-order.trial")
 	res.Rule = "A: every length prefix edge (0..65535) with unsigned bodies, short reads; B: contents of 64..1100 bytes correctly signed by the contacted server (random / zero), genuine replies mutated in the list region and re-signed; C: client histories over 1..6 scripted servers with per-round behaviours and restarts (non-trivial = at least one accepted reply, distinct by full transcript); D: real client with the reporting loop and a dead / resetting / never-answering server; E: real client, two overlapping sync rounds (slow server banned by the fast one meanwhile)"
 	return res, nil
 }
@@ -1331,6 +1337,219 @@ func rogueOverlap(res *core.Result) error {
 			res.Fail("after two overlapping sync rounds the client reports to a server it knows to be banned (the slow round, answered by the banned server itself, selected it again)", "selected-banned-after-overlap", desc)
 		}
 		return nil
+	}
+	return nil
+}
+
+// F: two sync rounds of a real client overlap; the slow server of the first round finally FAILS, and by
+// then the second round has learnt (from the fast server's GCA-signed list) that server O is banned.
+// The first round's next attempt must not contact O.  Repeated until the first round really started
+// on the slow server; a round that moves on to the fast server instead of O proves nothing, so up to
+// three judged repetitions.
+func rogueStaleCandidates(res *core.Result) error {
+	tab := &sigTab{}
+	judged := 0
+	for attempt := 0; attempt < 16 && judged < 6; attempt++ {
+		gca, dev, kx, ky, ko := newKey(), newKey(), newKey(), newKey(), newKey()
+		var mu sync.Mutex
+		var banLearnt time.Time
+		var oAfterBan int
+		var firstX, firstY time.Time
+		var px, py, po *scriptPeer
+		list := func(banO bool) []server.AuthorizedServer {
+			return []server.AuthorizedServer{
+				mkAS(tab, gca, kx.pub, false, "127.0.0.1", 9, px.port, 9),
+				mkAS(tab, gca, ky.pub, false, "127.0.0.1", 9, py.port, 9),
+				mkAS(tab, gca, ko.pub, banO, "127.0.0.1", 9, po.port, 9)}
+		}
+		var err error
+		if px, err = newScriptPeer(func(int) peerAction { return peerAction{kind: actReset} }); err != nil {
+			return err
+		}
+		if py, err = newScriptPeer(func(int) peerAction { return peerAction{kind: actReset} }); err != nil {
+			px.close()
+			return err
+		}
+		if po, err = newScriptPeer(func(int) peerAction { return peerAction{kind: actReset} }); err != nil {
+			px.close()
+			py.close()
+			return err
+		}
+		px.setScript(func(k int) peerAction { // slow, and what finally comes is not a reply
+			mu.Lock()
+			if firstX.IsZero() {
+				firstX = time.Now()
+			}
+			mu.Unlock()
+			return peerAction{kind: actDelayed, delay: 400 * time.Millisecond, data: frame([]byte("not a sync reply"))}
+		})
+		py.setScript(func(k int) peerAction {
+			mu.Lock()
+			if firstY.IsZero() {
+				firstY = time.Now()
+			}
+			if banLearnt.IsZero() {
+				banLearnt = time.Now()
+			}
+			mu.Unlock()
+			spec := replySpec{devKey: dev.pub, unixTime: uint64(time.Now().Unix()), servers: list(true)}
+			return peerAction{kind: actSend, data: signedWire(tab, spec.content(), ky)}
+		})
+		po.setScript(func(k int) peerAction {
+			mu.Lock()
+			if !banLearnt.IsZero() && time.Since(banLearnt) > 150*time.Millisecond {
+				oAfterBan++
+			}
+			mu.Unlock()
+			return peerAction{kind: actReset}
+		})
+		cd, err := writeClientDir("verif-stale", dev, gca.pub, 3, map[glow.PublicKey]client.GCAServer{
+			kx.pub: {Location: "127.0.0.1", HttpPort: 9, TcpPort: px.port, UdpPort: 9},
+			ky.pub: {Location: "127.0.0.1", HttpPort: 9, TcpPort: py.port, UdpPort: 9},
+			ko.pub: {Location: "127.0.0.1", HttpPort: 9, TcpPort: po.port, UdpPort: 9}})
+		if err != nil {
+			return err
+		}
+		c, err, pan := client.VerifSyncLoadClient(cd.dir)
+		if err != nil || pan != "" {
+			return fmt.Errorf("stale-candidates client does not load: %v %s", err, pan)
+		}
+		var wg sync.WaitGroup
+		wg.Add(2)
+		go func() { defer wg.Done(); client.VerifSyncRound(c, 1) }()
+		go func() {
+			defer wg.Done()
+			// the second round starts once the first one is waiting on the slow server; it is repeated until it
+			// has been to the fast server (it may try the slow or the doomed one first)
+			for i := 0; i < 40; i++ {
+				mu.Lock()
+				x, y := firstX, firstY
+				mu.Unlock()
+				if !y.IsZero() {
+					return
+				}
+				if x.IsZero() {
+					time.Sleep(5 * time.Millisecond)
+					continue
+				}
+				client.VerifSyncRound(c, 1)
+			}
+		}()
+		wg.Wait()
+		time.Sleep(100 * time.Millisecond)
+		c.VerifSyncStop()
+		c.VerifSyncForget()
+		px.close()
+		py.close()
+		po.close()
+		os.RemoveAll(cd.dir)
+		mu.Lock()
+		ok := !firstX.IsZero() && !firstY.IsZero() && firstX.Before(firstY) && firstY.Sub(firstX) < 300*time.Millisecond
+		after := oAfterBan
+		mu.Unlock()
+		if !ok {
+			res.Discarded++
+			continue
+		}
+		judged++
+		res.Count("stale-candidates.judged")
+		desc := map[string]interface{}{"kind": "overlapping-rounds-stale-candidates", "connections_to_banned_server_after_the_ban_was_learnt": after}
+		res.Case(desc, fmt.Sprint("stale", attempt), true)
+		if after > 0 {
+			res.Fail("a sync round that had started before the client learnt (in an overlapping round) that a server is banned went on to contact that server after its own server failed", "contacted-banned-after-overlap", desc)
+			return nil
+		}
+	}
+	return nil
+}
+
+// G: several sync rounds of one client finish at the same time, each having learnt another ban.  What the
+// client holds in memory afterwards must be what is on disk (a restart must not forget a ban).
+func roguePersistOrder(res *core.Result) error {
+	tab := &sigTab{}
+	for trial := 0; trial < 60; trial++ {
+		gca, dev := newKey(), newKey()
+		const n = 6
+		var peers []*scriptPeer
+		var skeys, vkeys []keyPair
+		for i := 0; i < n; i++ {
+			p, err := newScriptPeer(func(int) peerAction { return peerAction{kind: actReset} })
+			if err != nil {
+				return err
+			}
+			peers = append(peers, p)
+			skeys = append(skeys, newKey())
+			vkeys = append(vkeys, newKey())
+		}
+		known := map[glow.PublicKey]client.GCAServer{}
+		for i := 0; i < n; i++ {
+			known[skeys[i].pub] = client.GCAServer{Location: "127.0.0.1", HttpPort: 9, TcpPort: peers[i].port, UdpPort: 9}
+			known[vkeys[i].pub] = client.GCAServer{Location: "127.0.0.1", HttpPort: 9, TcpPort: deadPort(), UdpPort: 9, Banned: false}
+		}
+		for i := 0; i < n; i++ {
+			i := i
+			peers[i].setScript(func(int) peerAction {
+				spec := replySpec{devKey: dev.pub, unixTime: uint64(time.Now().Unix())}
+				spec.servers = []server.AuthorizedServer{mkAS(tab, gca, vkeys[i].pub, true, "127.0.0.1", 9, 9, 9)} // this server knows one ban
+				return peerAction{kind: actSend, data: signedWire(tab, spec.content(), skeys[i])}
+			})
+		}
+		cd, err := writeClientDir("verif-persist", dev, gca.pub, 3, known)
+		if err != nil {
+			return err
+		}
+		c, err, pan := client.VerifSyncLoadClient(cd.dir)
+		if err != nil || pan != "" {
+			return fmt.Errorf("persist-order client does not load: %v %s", err, pan)
+		}
+		var wg sync.WaitGroup
+		start := make(chan struct{})
+		for g := 0; g < 8; g++ {
+			wg.Add(1)
+			go func() { defer wg.Done(); <-start; client.VerifSyncRound(c, 1) }()
+		}
+		close(start)
+		wg.Wait()
+		mem := map[glow.PublicKey]bool{}
+		if client.VerifTryLock(c) {
+			for _, e := range client.VerifState(c).Servers {
+				if e.Server.Banned {
+					mem[e.Key] = true
+				}
+			}
+		}
+		c.VerifSyncStop()
+		c.VerifSyncForget()
+		c2, err2, pan2 := client.VerifSyncLoadClient(cd.dir)
+		disk := map[glow.PublicKey]bool{}
+		if err2 == nil && pan2 == "" {
+			for _, e := range client.VerifState(c2).Servers {
+				if e.Server.Banned {
+					disk[e.Key] = true
+				}
+			}
+			c2.VerifSyncStop()
+			c2.VerifSyncForget()
+		}
+		for _, p := range peers {
+			p.close()
+		}
+		os.RemoveAll(cd.dir)
+		res.Count("persist-order.trial")
+		lost := 0
+		for k := range mem {
+			if !disk[k] {
+				lost++
+			}
+		}
+		if err2 != nil || pan2 != "" {
+			res.Fail(fmt.Sprintf("after eight sync rounds finishing together the client cannot be restarted: %v %s", err2, pan2), "persist-order-unloadable", map[string]interface{}{"trial": trial})
+			return nil
+		}
+		if lost > 0 {
+			res.Fail(fmt.Sprintf("after eight sync rounds finishing together the client knows %d banned servers, but its server file holds only %d of those bans: a restart forgets %d", len(mem), len(mem)-lost, lost), "ban-lost-on-disk", map[string]interface{}{"trial": trial, "bans_in_memory": len(mem), "bans_lost": lost})
+			return nil
+		}
 	}
 	return nil
 }
